@@ -88,7 +88,7 @@ type c46Obs struct {
 	actionCh   chan uint64 // blocks requested through the ACTION's waitForBlockFn
 	release    chan struct{}
 	relOnce    sync.Once
-	active     sync.WaitGroup
+	active     c46Active
 	confirm    []uint64 // heights waited for through the chain's block counter
 	timedOut   bool
 	overrun    string // logical-clock evidence: retry loop alive after the signing deadline
@@ -122,9 +122,21 @@ func c46ArmingGoroutines() int {
 	}
 	count := 0
 	for _, g := range strings.Split(string(buf), "\n\n") {
-		if strings.Contains(g, "withCancelOnBlock.func1") && !strings.Contains(g, "(*c46Obs).") && !strings.Contains(g, "(*c46Counter).") {
-			count++
+		if !strings.Contains(g, "withCancelOnBlock.func1") {
+			continue
 		}
+		// parked in the select of a harness stub = waiting for its block. A
+		// goroutine that is inside a stub but not parked there (the stub is
+		// about to return, e.g. with the injected error) still has to act.
+		header := g
+		if i := strings.Index(g, "\n"); i >= 0 {
+			header = g[:i]
+		}
+		inStub := strings.Contains(g, "(*c46Obs).") || strings.Contains(g, "(*c46Counter).")
+		if inStub && strings.Contains(header, "[select") {
+			continue
+		}
+		count++
 	}
 	return count
 }
@@ -373,17 +385,27 @@ func (o *c46Obs) signReturned() {
 	o.mu.Unlock()
 }
 
+// c46Active counts the stub invocations in progress. Not a sync.WaitGroup:
+// production goroutines may enter a stub while join is already waiting at
+// zero, which a WaitGroup answers with a panic ("reused before previous Wait
+// has returned").
+type c46Active struct {
+	mu sync.Mutex
+	n  int
+}
+
+func (a *c46Active) Add(d int) { a.mu.Lock(); a.n += d; a.mu.Unlock() }
+func (a *c46Active) Done()     { a.Add(-1) }
+func (a *c46Active) idle() bool {
+	a.mu.Lock()
+	defer a.mu.Unlock()
+	return a.n == 0
+}
+
 // join waits until every stub invocation has returned.
 func (o *c46Obs) join() bool {
 	o.releaseAll()
-	done := make(chan struct{})
-	go func() { o.active.Wait(); close(done) }()
-	select {
-	case <-done:
-		return true
-	case <-time.After(c46Patience):
-		return false
-	}
+	return verifkit.Eventually(c46Patience, o.active.idle)
 }
 
 // block counter of the host chain stub (moving funds commitment wait)
@@ -624,13 +646,13 @@ type c46Run struct {
 	broadcast   time.Duration
 	err         error
 	// later message of the batch (transaction actions)
-	late        *c46SignCall
-	lateClass   string
-	overrun     string
-	clockAtEnd  uint64
-	faulted     bool
-	unarmed     string
-	calls       []*c46SignCall
+	late       *c46SignCall
+	lateClass  string
+	overrun    string
+	clockAtEnd uint64
+	faulted    bool
+	unarmed    string
+	calls      []*c46SignCall
 }
 
 var c46Key = func() *btcec.PrivateKey {
